@@ -7,7 +7,9 @@
 package c15
 
 import (
+	"encoding/json"
 	"fmt"
+	"os"
 	"math/rand"
 	"runtime"
 	"sync"
@@ -108,6 +110,24 @@ func TestCheck(t *testing.T) {
 		}
 	}()
 	rng := rand.New(rand.NewSource(ev.Seed()))
+	if n := os.Getenv("C15_ONLY_RACE"); n != "" { // debugging aid: only the staged refresh race, n rounds
+		rounds := 0
+		fmt.Sscan(n, &rounds)
+		rb := &tv.Batch{}
+		for i := 0; i < rounds; i++ {
+			refreshRace(rb, rng, e, i)
+		}
+		missing, res := tv.ValidateDone(tlc.Opts{Dir: "TTLCache", Module: "TraceTTL", Config: "TraceTTL.cfg", Workers: 16, Timeout: 30 * time.Minute, HeapMB: 12000}, rb)
+		fmt.Println("only-race:", rounds, "rounds, ok", res.OK, "missing", len(missing))
+		for _, i := range missing {
+			e.Violation(classifyConc(rb.TraceStrings(i)), "debug", tv.M{"trace": rb.TraceStrings(i)})
+		}
+		e.Set("evaluations", int64(rounds))
+		e.Nontrivial("a")
+		e.Nontrivial("b")
+		e.Sample("debug run")
+		return
+	}
 
 	mc := tlc.Run(tlc.Opts{Dir: "TTLCache", Module: "TTLModel", Config: ev.Pick("MC_small.cfg", "MC_big.cfg"), Workers: 16,
 		Timeout: ev.Pick(4*time.Minute, 30*time.Minute), HeapMB: 12000, Args: []string{"-noGenerateSpecTE"}})
@@ -221,7 +241,7 @@ func TestCheck(t *testing.T) {
 		return
 	}
 	for _, i := range cmissing {
-		e.Violation("conc:history-not-explained", "concurrent history has no linearization in TTLCache.tla (beyond the documented cleanup/refresh race)", tv.M{"trace": cb.TraceStrings(i)})
+		e.Violation(classifyConc(cb.TraceStrings(i)), "concurrent history has no linearization in TTLCache.tla (beyond the documented cleanup/refresh race)", tv.M{"trace": cb.TraceStrings(i)})
 	}
 	e.Sample(tv.M{"mode": "concurrent", "trace": cb.TraceStrings(cb.Len() / 2)})
 
@@ -238,7 +258,7 @@ func TestCheck(t *testing.T) {
 		return
 	}
 	for _, i := range rmissing {
-		e.Violation("conc:refresh-race-history-not-explained", "history around a staged cleanup/refresh race has no linearization in TTLCache.tla", tv.M{"trace": rb.TraceStrings(i)})
+		e.Violation(classifyConc(rb.TraceStrings(i)), "history around a staged cleanup/refresh race has no linearization in TTLCache.tla", tv.M{"trace": rb.TraceStrings(i)})
 	}
 	e.Sample(tv.M{"mode": "refresh-race", "trace": rb.TraceStrings(0)})
 
@@ -261,6 +281,90 @@ func TestCheck(t *testing.T) {
 	e.Set("rule", "sequential: every sequence over a 10-letter alphabet (Set a ttl1/ttl3, Set b ttl2, Get a/b, Delete a, Cleanup, Reset, Advance 1s/2s) up to length L that starts with Set and ends with Get, for MaxTTL in {0,2}, plus seeded random sequences of length 6-15; concurrent: 3 goroutines x 4 random ops with the periodic cleaner on, call/return order recorded under one mutex; stop: Stop raced against a cleaner parked inside Cleanup. non-trivial (sequential) = contains a Set and a Get; distinct by (MaxTTL, op sequence)")
 
 	selfTest(e)
+}
+
+// classifyConc names a rejected concurrent history (the verdict is TLC's): it looks, per key, for
+//  (a) a Get that returned a value although a later Set or a Delete of that key had completely
+//      finished before the Get was called                      -> superseded/deleted value returned
+//  (b) a Get miss although a Set of that key (not expired) had finished before it and no Delete /
+//      Cleanup / Reset was called after that Set started       -> a Set was lost; if earlier in the
+//      history a delete-type operation overlapped a Set of the same key this is the haxmap defect
+//      (a Set landing while Del has marked but not yet unlinked the node re-indexes the dead node)
+func classifyConc(lines []string) string {
+	type opRec struct {
+		op, k          string
+		v, ttl, d, res int
+		call, ret      int
+	}
+	ops := map[int]*opRec{}
+	var order []*opRec
+	for i, l := range lines {
+		var m map[string]any
+		if json.Unmarshal([]byte(l), &m) != nil {
+			continue
+		}
+		num := func(k string) int { f, _ := m[k].(float64); return int(f) }
+		switch m["ev"] {
+		case "call":
+			o := &opRec{op: m["op"].(string), v: num("v"), ttl: num("ttl"), d: num("d"), call: i, ret: 1 << 30}
+			o.k, _ = m["k"].(string)
+			ops[num("id")] = o
+			order = append(order, o)
+		case "ret":
+			if o := ops[num("id")]; o != nil {
+				o.ret, o.res = i, num("res")
+			}
+		}
+	}
+	deleter := func(o *opRec, k string) bool {
+		return o.op == "reset" || o.op == "cleanup" || (o.op == "delete" && o.k == k)
+	}
+	for _, g := range order {
+		if g.op != "get" {
+			continue
+		}
+		if g.res != miss {
+			for _, o := range order { // (a)
+				if o.ret < g.call && ((o.op == "set" && o.k == g.k && o.v != g.res) || (o.op == "delete" && o.k == g.k)) {
+					// o finished before the Get; was the returned value's Set finished before o started?
+					for _, sv := range order {
+						if sv.op == "set" && sv.k == g.k && sv.v == g.res && sv.ret < o.call {
+							return "conc:get-returned-superseded-or-deleted-value"
+						}
+					}
+				}
+			}
+			continue
+		}
+		for _, sv := range order { // (b)
+			if sv.op != "set" || sv.k != g.k || sv.ret >= g.call {
+				continue
+			}
+			explained := false
+			for _, o := range order {
+				if o.call > sv.call && o.call < g.ret && (deleter(o, g.k) || o.op == "advance") {
+					explained = true
+				}
+				if o.call < sv.call && o.ret > sv.call && deleter(o, g.k) {
+					explained = true // a delete-type operation was still running when the Set started
+				}
+			}
+			if explained {
+				continue
+			}
+			for _, o := range order {
+				if deleter(o, g.k) && o.call < sv.call {
+					for _, s2 := range order {
+						if s2.op == "set" && s2.k == g.k && s2.call < o.ret && s2.ret > o.call {
+							return "conc:set-lost-after-set-overlapped-delete:haxmap"
+						}
+					}
+				}
+			}
+			return "conc:set-lost-without-any-delete"
+		}
+	}
+	return "conc:history-not-explained"
 }
 
 type hist struct {
